@@ -504,6 +504,47 @@ theorem readd_id {known acc xs : List String} (hk : UOK isUrl known (acc ++ xs))
     have hk' : UOK isUrl known ((acc ++ [x]) ++ xs) := by simpa using hk
     simpa using ih hk'
 
+theorem urlsSetSlice_ok {known items us r : List String} {a b st : Option Int} {out : Outcome}
+    (hk : UOK isUrl known items)
+    (hr : urlsSetSlice isUrl known items a b st us = (some r, out)) : UOK isUrl known r := by
+  unfold urlsSetSlice at hr
+  split at hr
+  · cases hr
+  · rename_i cs hc
+    split at hr
+    · cases hr
+    · rename_i items' hs
+      cases hr
+      apply readd_ok (UOK_nil known)
+      intro x hx
+      rcases mem_sliceAssign_of hs hx with h | h
+      · exact hk.2.1 x h
+      · exact coerceAll_ok_good hc x h
+
+theorem nodup_reverse' {α} {l : List α} (h : l.Nodup) : l.reverse.Nodup := by
+  simp only [List.Nodup, List.pairwise_reverse] at h ⊢
+  exact h.imp (fun hab => Ne.symm hab)
+
+theorem UOK_reverse {known items : List String} (hk : UOK isUrl known items) :
+    UOK isUrl known items.reverse :=
+  ⟨nodup_reverse' hk.1, fun u hu => hk.2.1 u (List.mem_reverse.1 hu),
+   fun u hu => hk.2.2 u (List.mem_reverse.1 hu)⟩
+
+/-- assigning a good list `us` to the whole slice `[:]` hands exactly `us` to the callback -/
+theorem urlsSetSlice_whole {known items us : List String} (hk : UOK isUrl known us) :
+    urlsSetSlice isUrl known items none none none us = (some us, .ok) := by
+  simp only [urlsSetSlice, coerceAll_id hk.2.1, sliceAssign, sliceRange, Option.getD_none, if_true, splice]
+  simp only [List.take_zero, List.nil_append, Nat.max_eq_right, Nat.zero_le,
+    List.drop_length, List.append_nil]
+  have := readd_id (isUrl := isUrl) (known := known) (acc := []) (xs := us) (by simpa using hk)
+  simpa using this
+
+/-- `MonitoredList.reverse()` on a good list: exactly the reversed list, one callback, no error -/
+theorem urlsOp_reverse {known items : List String} (hk : UOK isUrl known items) :
+    urlsOp isUrl known items .reverse = (some items.reverse, .ok) := by
+  simp only [urlsOp]
+  exact urlsSetSlice_whole (UOK_reverse hk)
+
 /-! ### `urlsOp` -/
 
 /-- EVERY in-place operation on a URL list — index and slice assignment included since
@@ -573,17 +614,9 @@ theorem urlsOp_ok {known items r : List String} {op : UOp}
         · subst h; exact coerce_ok_good hc
   | setSlice a b st us =>
     simp only [urlsOp] at hr
-    split at hr
-    · cases hr
-    · rename_i cs hc
-      split at hr
-      · cases hr
-      · rename_i items' hs
-        cases hr
-        apply readd_ok (UOK_nil known)
-        intro x hx
-        rcases mem_sliceAssign_of hs hx with h | h
-        · exact hk.2.1 x h
-        · exact coerceAll_ok_good hc x h
+    exact urlsSetSlice_ok hk hr
+  | reverse =>
+    simp only [urlsOp] at hr
+    exact urlsSetSlice_ok hk hr
 
 end Torf.Lists
